@@ -413,8 +413,9 @@ def step (env : Env) (app : App) (s : Sock) (e : Event) : Sock :=
   | .ackAll => ackN env app s s.tcp.unacked
   | .peerClose =>
     if s.tcp.conn == .unconnected then s else
-    let s := onReadChannelFinished env app s
-    emitDc env app { s with tcp := { s.tcp with conn := .unconnected } }
+    -- QAbstractSocket: the state is Unconnected before readChannelFinished and disconnected
+    let s := onReadChannelFinished env app { s with tcp := { s.tcp with conn := .unconnected } }
+    emitDc env app s
   | .turn =>
     -- posted events first (the queued initial read), then deferred deletion
     let s := if s.initPending then onReadyRead env app { s with initPending := false } else s
